@@ -65,6 +65,9 @@ fn oracle(before: &Obs, after: &Obs, rule_applied: bool) -> Result<(), String> {
         if after.len < before.cutoff {
             return Err(format!("container length {} below the cutoff {} the sweep used", after.len, before.cutoff));
         }
+        if after.len != before.len.max(before.cutoff) {
+            return Err(format!("container length {} after the sweep is not the cutoff the sweep used ({}, previous length {})", after.len, before.cutoff, before.len));
+        }
     }
     Ok(())
 }
@@ -602,6 +605,149 @@ fn run_tempering(gen: &mut SplitMix64, parallel: bool) {
     }
 }
 
+// ---------------------------------------------------------------------------------------------
+// Tempering containers of ANY replica type (Ising samplers, generic samplers obtained by `into_qmc`,
+// generic samplers built directly), small initial cutoffs, a beta ladder that makes cutoffs grow in the
+// first steps, and sequences interleaving `timestep` on single replicas / `timesteps` on the container
+// with (serial or rayon) tempering steps.  After EVERY public call, on EVERY replica object:
+//   sampler cutoff never decreases; cutoff >= n + n/2 + 1 after a sweep; container length <= cutoff and
+//   equal to the cutoff the sweep used; after a tempering step every replica's cutoff is >= the maximum of
+//   the previous cutoffs (that is what lets it take any partner's string), margin and free slot survive.
+// ---------------------------------------------------------------------------------------------
+use qmc::sse::parallel_tempering::{GraphWeights, ParallelQmcTimeSteps, SwapManagers, TemperingContainer};
+
+trait Rep: QmcStepper + GraphWeights + SwapManagers + Send + Sync {
+    fn obs(&self) -> Obs;
+}
+impl Rep for G {
+    fn obs(&self) -> Obs {
+        obs_g(self)
+    }
+}
+impl Rep for Q {
+    fn obs(&self) -> Obs {
+        obs_q(self)
+    }
+}
+
+fn all_obs<T: Rep>(tc: &TemperingContainer<SplitMix64, T>) -> Vec<Obs> {
+    tc.graph_ref().iter().map(|(g, _)| g.obs()).collect()
+}
+
+fn tempering_oracle(before: &[Obs], after: &[Obs]) -> Result<(), String> {
+    let m = before.iter().map(|o| o.cutoff).max().unwrap();
+    let margin_before = before.iter().all(|o| o.n + o.n / 2 + 1 <= o.cutoff);
+    for (i, (b, a)) in before.iter().zip(after.iter()).enumerate() {
+        obj_oracle(&format!("replica {}", i), b.cutoff, a)?;
+        if a.cutoff < m {
+            return Err(format!("replica {}: cutoff {} after the tempering step is below the maximum {} of the previous cutoffs (n = {})", i, a.cutoff, m, a.n));
+        }
+        if margin_before && a.n + a.n / 2 + 1 > a.cutoff {
+            return Err(format!("replica {}: margin lost in the tempering step: n={} cutoff={}", i, a.n, a.cutoff));
+        }
+    }
+    let (ns_b, ns_a): (usize, usize) = (before.iter().map(|o| o.n).sum(), after.iter().map(|o| o.n).sum());
+    if ns_a != ns_b {
+        return Err("tempering step changed the total operator count".into());
+    }
+    Ok(())
+}
+
+fn run_tempering_mixed<T: Rep>(gen: &mut SplitMix64, label: &str, reps: Vec<T>, rounds: usize, tr: &mut Tracker) {
+    let mut tc = TemperingContainer::<SplitMix64, T>::new(SplitMix64::new(gen.next()));
+    let ladder = *gen.pick(&[1.0, 2.0, 4.0]);
+    for (r, g) in reps.into_iter().enumerate() {
+        // 1/2, 1, 2, 4 ... times the ladder factor: the cold replicas outgrow cutoff 1..3 at once
+        let beta = 0.5 * ladder * (1u64 << r) as f64;
+        if let Err(e) = tc.add_qmc_stepper(g, beta) {
+            emit(true, &format!("idle {}-add 0 0 0", label), "rejected", Some(Err(format!("add_qmc_stepper rejected an identical model: {}", e))));
+            return;
+        }
+    }
+    let nrep = tc.num_graphs();
+    let step_label = format!("temper-{}", label);
+    for _ in 0..rounds {
+        match gen.below(5) {
+            0 | 1 => {
+                // one time step of the whole container
+                let before = all_obs(&tc);
+                if let Err(p) = catch(|| tc.timesteps(1)) {
+                    emit(true, &format!("step {} {} {} 0", step_label, before[0].cutoff, before[0].len), "panic", Some(Err(format!("container timesteps(1) panicked: {} (cutoffs {:?}, n {:?})", p, before.iter().map(|o| o.cutoff).collect::<Vec<_>>(), before.iter().map(|o| o.n).collect::<Vec<_>>()))));
+                    return;
+                }
+                let after = all_obs(&tc);
+                for (b, a) in before.iter().zip(after.iter()) {
+                    emit_step(&step_label, b, a, tr);
+                }
+            }
+            2 => {
+                // one replica alone
+                let i = gen.below(nrep as u64) as usize;
+                let before = tc.graph_ref()[i].0.obs();
+                let r = catch(|| {
+                    let (g, beta) = &mut tc.graph_mut()[i];
+                    let b = *beta;
+                    g.timestep(b);
+                });
+                if let Err(p) = r {
+                    emit(true, &format!("step {} {} {} 0", step_label, before.cutoff, before.len), "panic", Some(Err(format!("replica timestep panicked: {} (cutoff={} len={} n={})", p, before.cutoff, before.len, before.n))));
+                    return;
+                }
+                let after = tc.graph_ref()[i].0.obs();
+                emit_step(&step_label, &before, &after, tr);
+            }
+            _ => {
+                let before = all_obs(&tc);
+                let swaps0 = tc.get_total_swaps();
+                let parallel = gen.coin();
+                let r = catch(|| {
+                    if parallel {
+                        tc.parallel_tempering_step()
+                    } else {
+                        tc.tempering_step()
+                    }
+                });
+                if let Err(p) = r {
+                    emit(true, &format!("equalise {} {}", list(&before.iter().map(|o| o.cutoff).collect::<Vec<_>>()), list(&before.iter().map(|o| o.len).collect::<Vec<_>>())), "panic", Some(Err(format!("tempering step panicked: {}", p))));
+                    return;
+                }
+                let after = all_obs(&tc);
+                let accepted = tc.get_total_swaps() - swaps0;
+                stat(&format!("temper_{}_steps", label), 1);
+                stat(&format!("temper_{}_swaps_accepted", label), accepted);
+                if before.iter().any(|o| o.len < o.cutoff) {
+                    stat(&format!("temper_{}_steps_right_after_growth", label), 1);
+                }
+                let m = before.iter().map(|o| o.cutoff).max().unwrap();
+                emit(
+                    before.iter().any(|o| o.cutoff != m || o.len != m),
+                    &format!("equalise {} {}", list(&before.iter().map(|o| o.cutoff).collect::<Vec<_>>()), list(&before.iter().map(|o| o.len).collect::<Vec<_>>())),
+                    &format!("{} {}", list(&after.iter().map(|o| o.cutoff).collect::<Vec<_>>()), list(&after.iter().map(|o| o.len).collect::<Vec<_>>())),
+                    Some(tempering_oracle(&before, &after)),
+                );
+            }
+        }
+    }
+}
+
+fn run_temperings(gen: &mut SplitMix64, rounds: usize, tr: &mut Tracker) {
+    let nrep = gen.range(2, 4) as usize;
+    let small = |gen: &mut SplitMix64| 1 + gen.below(3) as usize; // 1, 2, 3
+    // (1) Ising replicas
+    let nv = gen.range(2, 4) as usize;
+    let edges: Vec<((usize, usize), f64)> = (0..nv - 1).map(|a| ((a, a + 1), 1.0)).collect();
+    let reps: Vec<G> = (0..nrep).map(|_| G::new_with_rng(edges.clone(), 1.0, 0.0, small(gen), SplitMix64::new(gen.next()), None)).collect();
+    run_tempering_mixed(gen, "ising", reps, rounds, tr);
+    // (2) generic replicas obtained by into_qmc (the cutoff, also one below nvars, is carried over)
+    let reps: Vec<Q> = (0..nrep).map(|_| G::new_with_rng(edges.clone(), 1.0, 0.0, small(gen), SplitMix64::new(gen.next()), None).into_qmc()).collect();
+    run_tempering_mixed(gen, "converted", reps, rounds, tr);
+    // (3) generic replicas built directly: cutoff = nvars in {1, 2, 3}
+    let nvq = gen.range(1, 3) as usize;
+    let js: Vec<f64> = (0..nvq - 1).map(|_| 1.0).collect();
+    let reps: Vec<Q> = (0..nrep).map(|_| make_generic(gen.next(), nvq, 1.0, &js)).collect();
+    run_tempering_mixed(gen, "generic", reps, rounds, tr);
+}
+
 /// Statistical sanity line (NOT a claim of the check): energy per run from cutoff 1 vs a generous one.
 fn sanity(seed: u64) {
     let edges = vec![((0, 1), 1.0), ((1, 2), 1.0), ((2, 3), 1.0), ((3, 0), 1.0)];
@@ -636,6 +782,7 @@ fn main() {
         run_generic(&mut gen, steps, false, &mut tr);
         run_history_ising(&mut gen, steps, &mut tr);
         run_history_generic(&mut gen, steps, &mut tr);
+        run_temperings(&mut gen, steps, &mut tr);
         if rep % 3 == 0 {
             run_tempering(&mut gen, false);
             run_tempering(&mut gen, true);
